@@ -19,10 +19,26 @@ func c14GenesisRefs(o *runner.Outcome) {
 	ctx := scen.PreparedSeed("prepared").Build(c)
 	cases := []struct {
 		name, table, field, value string
+		row                       int // which row of the table is redirected
 	}{
-		{"batch->project", "regen.ecocredit.v1.Batch", "project_key", "99"},
-		{"project->class", "regen.ecocredit.v1.Project", "class_key", "99"},
-		{"class->credit-type", "regen.ecocredit.v1.Class", "credit_type_abbrev", "ZZZ"},
+		{"batch->project", "regen.ecocredit.v1.Batch", "project_key", "99", 0},
+		// b2: all its amounts are whole numbers (no other validation rule can reject the document instead)
+		{"batch->project(whole-number-amounts)", "regen.ecocredit.v1.Batch", "project_key", "99", 1},
+		{"project->class", "regen.ecocredit.v1.Project", "class_key", "99", 0},
+		{"project->class(second)", "regen.ecocredit.v1.Project", "class_key", "99", 1},
+		{"class->credit-type", "regen.ecocredit.v1.Class", "credit_type_abbrev", "ZZZ", 0},
+		{"balance->batch", "regen.ecocredit.v1.BatchBalance", "batch_key", "99", 0},
+		{"supply->batch", "regen.ecocredit.v1.BatchSupply", "batch_key", "99", 0},
+		{"basket-balance->batch", "regen.ecocredit.basket.v1.BasketBalance", "batch_denom", "C01-001-20200101-20210101-099", 0},
+		// the following are accepted by the unchanged validation: recorded in known_findings.txt (DESIGN §0.3, D17)
+		{"contract->batch", "regen.ecocredit.v1.BatchContract", "batch_key", "99", 0},
+		{"contract->class", "regen.ecocredit.v1.BatchContract", "class_key", "99", 0},
+		{"issuer->class", "regen.ecocredit.v1.ClassIssuer", "class_key", "99", 0},
+		{"sell-order->batch", "regen.ecocredit.marketplace.v1.SellOrder", "batch_key", "99", 0},
+		{"sell-order->market", "regen.ecocredit.marketplace.v1.SellOrder", "market_id", "99", 0},
+		{"basket-balance->basket", "regen.ecocredit.basket.v1.BasketBalance", "basket_id", "99", 0},
+		{"basket-class->class", "regen.ecocredit.basket.v1.BasketClass", "class_id", "C99", 0},
+		{"basket-class->basket", "regen.ecocredit.basket.v1.BasketClass", "basket_id", "99", 0},
 	}
 	checked := 0
 	for _, cs := range cases {
@@ -31,11 +47,13 @@ func c14GenesisRefs(o *runner.Outcome) {
 		if err := json.Unmarshal(doc[cs.table], &raw); err != nil {
 			panic(err)
 		}
-		done := false
+		n := 0
 		for _, x := range raw {
-			if m, ok := x.(map[string]interface{}); ok && !done {
-				m[cs.field] = cs.value
-				done = true
+			if m, ok := x.(map[string]interface{}); ok {
+				if n == cs.row {
+					m[cs.field] = cs.value
+				}
+				n++
 			}
 		}
 		doc.Set(cs.table, raw)
@@ -43,7 +61,7 @@ func c14GenesisRefs(o *runner.Outcome) {
 		if err := c.Eco.ValidateGenesis(c.Cdc, nil, doc.JSON()); err == nil {
 			rp, _ := json.Marshal(map[string]string{"table": cs.table, "field": cs.field, "value": cs.value})
 			o.Findings = append(o.Findings, runner.Finding{Kind: "C14/genesis-validation-accepts-dangling-reference/" + cs.name,
-				Detail: fmt.Sprintf("the exported prepared state with %s.%s of the first row set to %s passes ValidateGenesis", cs.table, cs.field, cs.value),
+				Detail: fmt.Sprintf("the exported prepared state with %s.%s of row %d set to %s passes ValidateGenesis", cs.table, cs.field, cs.row, cs.value),
 				Engine: "A", Where: "genesis", Replay: rp})
 		}
 	}
